@@ -250,4 +250,191 @@ theorem largeAddFromL_spec {cap : Nat} {x y : Limbs} (ox : LimbsOk x) (oy : Limb
     apply (addMid_spec (cap := cap) A Mi Rr y oA oM oR oy hM (by rw [← hx]; exact l3)).2
     rw [← hx, hA, v1]; exact hfit
 
+/-! ## `long_mul`, `large_mul` -/
+
+/-- `small_mul` on a vector of limbs (not necessarily normalised), any multiplier limb (zero included) -/
+theorem smallMulL_ok_spec {cap : Nat} {x : Limbs} (ox : LimbsOk x) (hlen : x.length ≤ cap) {y : Nat} (hy : y < B64) :
+    (∀ z, smallMulL cap x y = some z → LimbsOk z ∧ valL z = valL x * y ∧ x.length ≤ z.length ∧ z.length ≤ cap) ∧
+    (valL x * y < B64 ^ cap → ∃ z, smallMulL cap x y = some z) := by
+  obtain ⟨h1, h2, h3⟩ := smallMulGo_spec y x 0
+  rw [Nat.add_zero] at h1
+  have hxl := valL_lt ox
+  unfold smallMulL
+  dsimp only
+  by_cases hc : (smallMulGo y x 0).2 = 0
+  · rw [if_neg (by simpa using hc)]
+    rw [hc, Nat.mul_zero, Nat.add_zero] at h1
+    exact ⟨fun z hz => by injection hz with hz; subst hz; exact ⟨h3, h1, by rw [h2], by rw [h2]; exact hlen⟩,
+      fun _ => ⟨_, rfl⟩⟩
+  · rw [if_pos (by simpa using hc)]
+    unfold tryPush
+    rw [h2]
+    have hcl : (smallMulGo y x 0).2 < B64 := by
+      apply Classical.byContradiction; intro hcon
+      have : valL x * y < B64 ^ x.length * B64 := by
+        by_cases hy0 : y = 0
+        · rw [hy0, Nat.mul_zero]; exact Nat.mul_pos (Nat.pow_pos B64_pos) B64_pos
+        · exact Nat.mul_lt_mul_of_lt_of_le hxl (Nat.le_of_lt hy) (by omega)
+      have : B64 ^ x.length * B64 ≤ B64 ^ x.length * (smallMulGo y x 0).2 := Nat.mul_le_mul_left _ (by omega)
+      omega
+    constructor
+    · intro z hz
+      split at hz
+      · rename_i hlt
+        injection hz with hz; subst hz
+        refine ⟨limbsOk_append.mpr ⟨h3, fun l hl => by simp at hl; rw [hl]; exact hcl⟩, ?_, by simp [h2], by simp [h2]; omega⟩
+        rw [valL_append, h2]; exact h1
+      · exact absurd hz (by simp)
+    · intro hfit
+      have hge : B64 ^ x.length ≤ valL x * y := by
+        rw [← h1]
+        have : B64 ^ x.length * 1 ≤ B64 ^ x.length * (smallMulGo y x 0).2 :=
+          Nat.mul_le_mul_left _ (Nat.pos_of_ne_zero hc)
+        omega
+      have : x.length < cap := by
+        have : B64 ^ x.length < B64 ^ cap := by omega
+        exact (Nat.pow_lt_pow_iff_right (by unfold B64; norm_num : 1 < B64)).mp this
+      rw [if_pos this]; exact ⟨_, rfl⟩
+
+/-- the accumulation loop of `long_mul`: `z += x·ys·B^index` -/
+theorem longMulGo_spec {cap : Nat} {x : Limbs} (hx : Normalized x) (hxne : x ≠ []) (hxl : x.length ≤ cap) :
+    ∀ (ys : Limbs) (index : Nat) (z : Limbs), LimbsOk ys → LimbsOk z → z.length ≤ cap →
+      (∀ z', longMulGo cap x ys index z = some z' →
+        LimbsOk z' ∧ valL z' = valL z + B64 ^ index * (valL x * valL ys) ∧ z'.length ≤ cap) ∧
+      (valL z + B64 ^ index * (valL x * valL ys) < B64 ^ cap → ∃ z', longMulGo cap x ys index z = some z')
+  | [], index, z, _, oz, hz => by
+    simp only [longMulGo, valL, Nat.mul_zero, Nat.add_zero]
+    exact ⟨fun z' h => by injection h with h; subst h; exact ⟨oz, rfl, hz⟩, fun _ => ⟨_, rfl⟩⟩
+  | yi :: ys, index, z, oys, oz, hz => by
+    obtain ⟨hyi, oys'⟩ := limbsOk_cons.mp oys
+    have hsplit : valL z + B64 ^ index * (valL x * valL (yi :: ys)) =
+        (valL z + B64 ^ index * (valL x * yi)) + B64 ^ (index + 1) * (valL x * valL ys) := by
+      simp only [valL]; rw [Nat.pow_succ]; ring
+    rw [hsplit]
+    by_cases h0 : yi = 0
+    · have hun : longMulGo cap x (yi :: ys) index z = longMulGo cap x ys (index + 1) z := by
+        simp [longMulGo, h0]
+      rw [hun, h0, Nat.mul_zero, Nat.mul_zero, Nat.add_zero]
+      exact longMulGo_spec hx hxne hxl ys (index + 1) z oys' oz hz
+    · have hun : longMulGo cap x (yi :: ys) index z =
+          (smallMulL cap x yi).bind fun zi =>
+            (largeAddFromL cap z zi index).bind fun z => longMulGo cap x ys (index + 1) z := by
+        simp [longMulGo, h0]
+      rw [hun]
+      obtain ⟨m1, m2⟩ := smallMulL_spec (cap := cap) hx hxl (y := yi) h0 hyi
+      constructor
+      · intro z' hz'
+        cases hzi : smallMulL cap x yi with
+        | none => rw [hzi] at hz'; exact absurd hz' (by simp)
+        | some zi =>
+          rw [hzi, Option.bind_some] at hz'
+          obtain ⟨nzi, vzi⟩ := m1 zi hzi
+          have hzine : 0 < zi.length := by
+            apply List.length_pos_iff.mpr
+            intro h0'
+            have := valL_pos hx hxne
+            have : 0 < valL x * yi := Nat.mul_pos this (Nat.pos_of_ne_zero h0)
+            rw [h0'] at vzi; simp [valL] at vzi; omega
+          obtain ⟨a1, _⟩ := largeAddFromL_spec (cap := cap) oz nzi.1 hzine index hz
+          cases hz2 : largeAddFromL cap z zi index with
+          | none => rw [hz2] at hz'; exact absurd hz' (by simp)
+          | some z2 =>
+            rw [hz2, Option.bind_some] at hz'
+            obtain ⟨oz2, vz2, _, lz2⟩ := a1 z2 hz2
+            obtain ⟨g1, _⟩ := longMulGo_spec hx hxne hxl ys (index + 1) z2 oys' oz2 lz2
+            obtain ⟨r1, r2, r3⟩ := g1 z' hz'
+            exact ⟨r1, by rw [r2, vz2, vzi], r3⟩
+      · intro hfit
+        have hpos : 0 < B64 ^ index := Nat.pow_pos B64_pos
+        have hpart : valL z + B64 ^ index * (valL x * yi) < B64 ^ cap := by omega
+        have hxy : valL x * yi < B64 ^ cap := by
+          have : valL x * yi * 1 ≤ B64 ^ index * (valL x * yi) := by
+            rw [Nat.mul_comm (B64 ^ index)]; exact Nat.mul_le_mul_left _ hpos
+          omega
+        obtain ⟨zi, hzi⟩ := m2 hxy
+        obtain ⟨nzi, vzi⟩ := m1 zi hzi
+        have hzine : zi ≠ [] := by
+          intro h0'
+          have := valL_pos hx hxne
+          have : 0 < valL x * yi := Nat.mul_pos this (Nat.pos_of_ne_zero h0)
+          rw [h0'] at vzi; simp [valL] at vzi; omega
+        have hzipos : 0 < zi.length := List.length_pos_iff.mpr hzine
+        obtain ⟨a1, a2⟩ := largeAddFromL_spec (cap := cap) oz nzi.1 hzipos index hz
+        have hzl : zi.length + index ≤ cap := by
+          have hge := valL_ge nzi hzine
+          rw [vzi] at hge
+          have : B64 ^ index * B64 ^ (zi.length - 1) ≤ B64 ^ index * (valL x * yi) := Nat.mul_le_mul_left _ hge
+          rw [← Nat.pow_add] at this
+          have : B64 ^ (index + (zi.length - 1)) < B64 ^ cap := by omega
+          have := (Nat.pow_lt_pow_iff_right (by unfold B64; norm_num : 1 < B64)).mp this
+          omega
+        obtain ⟨z2, hz2⟩ := a2 hzl (by rw [vzi]; exact hpart)
+        obtain ⟨oz2, vz2, _, lz2⟩ := a1 z2 hz2
+        obtain ⟨_, g2⟩ := longMulGo_spec hx hxne hxl ys (index + 1) z2 oys' oz2 lz2
+        obtain ⟨z', hz'⟩ := g2 (by rw [vz2, vzi]; exact hfit)
+        exact ⟨z', by rw [hzi, Option.bind_some, hz2, Option.bind_some]; exact hz'⟩
+
+/-- **`long_mul(x, y)`** for a normalised non-empty `x` and limbs `y` -/
+theorem longMulL_spec {cap : Nat} {x y : Limbs} (hx : Normalized x) (hxne : x ≠ []) (hxl : x.length ≤ cap)
+    (oy : LimbsOk y) (hyne : y ≠ []) :
+    (∀ z, longMulL cap x y = some z → Normalized z ∧ valL z = valL x * valL y) ∧
+    (valL x * valL y < B64 ^ cap → ∃ z, longMulL cap x y = some z) := by
+  cases y with
+  | nil => exact absurd rfl hyne
+  | cons y0 ys =>
+    obtain ⟨hy0, oys⟩ := limbsOk_cons.mp oy
+    have hun : longMulL cap x (y0 :: ys) =
+        (smallMulL cap x y0).bind fun z => (longMulGo cap x ys 1 z).map normalizeL := by
+      unfold longMulL
+      rw [if_neg (by omega)]
+    rw [hun]
+    obtain ⟨m1, m2⟩ := smallMulL_ok_spec (cap := cap) hx.1 hxl (y := y0) hy0
+    have hval : valL x * valL (y0 :: ys) = valL x * y0 + B64 ^ 1 * (valL x * valL ys) := by
+      simp only [valL, Nat.pow_one]; ring
+    constructor
+    · intro z hz
+      cases hz0 : smallMulL cap x y0 with
+      | none => rw [hz0] at hz; exact absurd hz (by simp)
+      | some z0 =>
+        rw [hz0, Option.bind_some] at hz
+        obtain ⟨oz0, vz0, _, lz0⟩ := m1 z0 hz0
+        obtain ⟨g1, _⟩ := longMulGo_spec hx hxne hxl ys 1 z0 oys oz0 lz0
+        cases hz1 : longMulGo cap x ys 1 z0 with
+        | none => rw [hz1] at hz; exact absurd hz (by simp)
+        | some z1 =>
+          rw [hz1, Option.map_some] at hz
+          injection hz with hz; subst hz
+          obtain ⟨oz1, vz1, _⟩ := g1 z1 hz1
+          obtain ⟨n1, n2, _⟩ := normalizeL_spec _ z1 rfl oz1
+          exact ⟨n1, by rw [n2, vz1, vz0, hval]⟩
+    · intro hfit
+      rw [hval] at hfit
+      have : valL x * y0 < B64 ^ cap := by omega
+      obtain ⟨z0, hz0⟩ := m2 this
+      obtain ⟨oz0, vz0, _, lz0⟩ := m1 z0 hz0
+      obtain ⟨_, g2⟩ := longMulGo_spec hx hxne hxl ys 1 z0 oys oz0 lz0
+      obtain ⟨z1, hz1⟩ := g2 (by rw [vz0]; exact hfit)
+      exact ⟨_, by rw [hz0, Option.bind_some, hz1, Option.map_some]⟩
+
+/-- **`large_mul(x, y)`** of two normalised non-empty vectors -/
+theorem largeMulL_spec {cap : Nat} {x y : Limbs} (hx : Normalized x) (hxne : x ≠ []) (hxl : x.length ≤ cap)
+    (hy : Normalized y) (hyne : y ≠ []) (hyl : y.length ≤ cap) :
+    (∀ z, largeMulL cap x y = some z → Normalized z ∧ valL z = valL x * valL y) ∧
+    (valL x * valL y < B64 ^ cap → ∃ z, largeMulL cap x y = some z) := by
+  cases y with
+  | nil => exact absurd rfl hyne
+  | cons y0 ys =>
+    cases ys with
+    | nil =>
+      have hy0 : y0 ≠ 0 := hy.2 y0 (by simp)
+      have hyB : y0 < B64 := hy.1 y0 (by simp)
+      have hun : largeMulL cap x [y0] = smallMulL cap x y0 := rfl
+      rw [hun]
+      simp only [valL, Nat.mul_zero, Nat.add_zero]
+      exact smallMulL_spec hx hxl hy0 hyB
+    | cons y1 ys' =>
+      have hun : largeMulL cap x (y0 :: y1 :: ys') = longMulL cap (y0 :: y1 :: ys') x := rfl
+      rw [hun, Nat.mul_comm (valL x)]
+      exact longMulL_spec hy hyne hyl hx.1 hxne
+
 end LexVerif.Proof.Slow
